@@ -275,6 +275,8 @@ def _ev(node, out, flags, prefix=""):
     if op == "pow":
         if "pscalar" in node:
             site = "pow:uv,%s" % node["pscalar"]
+        elif node.get("pfloat"):
+            site = "pow:uv,float"
         vals = _check_quantity(site, got, exp.dim, False, 1, out)
         if vals is None:
             raise _Stop()
@@ -792,6 +794,23 @@ def _spaces(tier):
     sp.append(Space("power: scalar ** p, p in {-2,-1,0,1/2,1/3,1,2,3} x every dimension of {-3..3}^3 x %d systems "
                     "x 4 magnitudes (raise exactly when a resulting exponent is not integral)" % len(SP),
                     [Block([SP, si.cube(-3, 3), POWS, range(4)], b_pow)]))
+
+    # (c') integral exponents handed over as float / numpy scalars, bases of both signs
+    PCARR = ["float", "np.int64", "np.int32", "np.float64", "np.float32"]
+    PINT = [-2, -1, 0, 1, 2, 3, 4]
+    PBASE = [-0.125, -41.0, -3.7e-8, 41.0]
+
+    def b_powc(a, dim, e, carr, v):
+        node = {"op": "pow", "args": [_q("uv", [v], a, dim)], "p": [e, 1]}
+        if carr == "float":
+            node["pfloat"] = True
+        else:
+            node["pscalar"] = carr
+        return {"sub": "power", "expr": node}
+    sp.append(Space("power-carriers: scalar ** integral exponent {-2..4} handed over as python float / np.int64 / "
+                    "np.int32 / np.float64 (judged) / np.float32 (observed only) x bases {-0.125, -41, -3.7e-8, 41} x "
+                    "cube {-1,0,1}^3 x 4 systems (a negative base with an integral exponent is real whatever the "
+                    "exponent's type)", [Block([S4, CUBE, PINT, PCARR, PBASE], b_powc)]))
 
     # (c) mismatched dimensions
     SYSP = [(si.DEFAULT, si.DEFAULT), (si.MIXED[0], si.MIXED[3])]
